@@ -18,8 +18,9 @@ abbrev cbs (fut : Nat → Fut) (q : Nat) : List Nat := (fut q).waiters ++ (fut q
 structure Inv (s : State) : Prop where
   noBad : s.bad = false
   noWrong : s.wrongCtx = false
-  /-- a bound frame runs in the context of its executor -/
-  ctxOk : ∀ h c e, s.fr h = .running c → s.fex h = some e → c = some e
+  /-- a bound frame runs in the context of its executor, unless that executor rejected the resumption
+  and the library resumed the frame in place -/
+  ctxOk : ∀ h c e, s.fr h = .running c → s.fex h = some e → c = some e ∨ s.fb h = true
   /-- a pending resumption goes through the frame's own executor -/
   viaOk : ∀ h via, s.fr h = .resuming via → via = s.fex h
   /-- a registered awaiter: recorded with its own executor; suspended on this task until it finishes -/
@@ -223,8 +224,25 @@ theorem Inv.runCbStep {s : State} (hI : Inv s) {q : Nat} {s' : State} (h : runCb
     obtain ⟨noBad, noWrong, ctxOk, viaOk, awOk, newOk, cbOk, waitersOk, regOk, cbNodup, cbUniq, pcOk⟩ := hI
     constructor <;> (try simp only) <;> aw_grind
 
+set_option maxHeartbeats 4000000 in
+theorem Inv.rejectStep {s : State} (hI : Inv s) {h : Nat} {via c : Option Nat} (hr : s.fr h = .resuming via) :
+    Inv { s with fr := upd s.fr h (.running c), fb := upd s.fb h true } := by
+  have hnc : ∀ q, h ∉ cbs s.fut q := by
+    intro q hq; have := (hI.cbOk q h hq).1; rw [hr] at this; cases this
+  have hpc : s.pc h = .idle := by
+    cases hp : s.pc h with
+    | idle => rfl
+    | fReg q => have := hI.pcOk h (by rw [hp]; simp); rw [hr] at this; cases this
+  obtain ⟨noBad, noWrong, ctxOk, viaOk, awOk, newOk, cbOk, waitersOk, regOk, cbNodup, cbUniq, pcOk⟩ := hI
+  constructor <;> (try simp only) <;> aw_grind
+
 theorem Inv.step {s s' : State} (hI : Inv s) (h : Step s s') : Inv s' := by
   cases h with
+  | reject h c s'' hs =>
+    simp only [reject] at hs
+    split at hs
+    · rename_i via hr; injection hs with hs; subst hs; exact hI.rejectStep hr
+    · cases hs
   | submit h e s'' hs =>
     simp only [submit] at hs
     split at hs
